@@ -25,7 +25,14 @@ kernel `K` (terms → dims → vertices), scale, bias and every input that is in
 the KFL output `bias + mean_t scale_t Π_d (Σ_i hat_i(x_d) k_{d,t,i})` equals the `Lattice` layer's
 hypercube interpolation `Σ_idx (Π_d hat_{idx_d}(x_d)) · kernel[idx]` of the dense kernel
 `kernel[idx] = bias + mean_t scale_t Π_d k_{d,t,idx_d}` (Σ/Π exchange), for both input forms of the
-lattice code and with or without `clip_inputs`. -/
+lattice code and with or without `clip_inputs`.
+`hr` (every coordinate in `[0, L − 1]`, or `clip_inputs` on) cannot be dropped: with `clip_inputs=False`
+and a coordinate outside the range neither layer interpolates (there is no containing cell; the
+`Lattice` side is outside property C02, see `Props/C02Outside.lean`) and the two representations are
+DIFFERENT functions — `C14_T1_needs_in_range`. The docstring promise C14 formalises ("the input-output
+behaviour of the factored and dense lattices is the same") is about the lattice's domain; the harness
+compares both real layers with the model on such points (class `outside:clip_off_out_of_range`) without
+demanding agreement. -/
 theorem C14_T1_kfl_eq_dense_lattice (form : LatticeEval.InputForm) (L dims : Nat) (clipI : Bool)
     (K : List (List (List ℚ))) (scale : List ℚ) (bias : ℚ) (xs : List ℚ)
     (hL : 2 ≤ L) (hd : 1 ≤ dims) (hx : xs.length = dims) (hK : ∀ kt ∈ K, kt.length = dims)
@@ -113,6 +120,35 @@ theorem C14_T1_dense_kernel_at_vertices (L dims : Nat) (clipI : Bool) (K : List 
   exact C02.C02_T2_vertex .list clipI (kflSizes L dims) (denseW K scale bias) idx hne hi
 
 
+/-- **C14/T1: `hr` is needed (clip off, out of range — outside the property).**
+(a) `L = 3`, two dims, one term `k = ([1, 2, 0], [0, 1, 3])`, scale 2, bias `3/2`, `x = (−1/2, 1)`: the hat
+weights of coordinate 0 sum to `1/2`, so the dense `Lattice` halves the bias: KFL `5/2`, Lattice `7/4`
+(both input forms). (b) `L = 2`, `k = ([1, 2], [0, 1])`, `x = (−1/2, 1/2)`: KFL and the TENSOR-input
+`Lattice` extrapolate linearly (`2`), the LIST-input `Lattice` uses hat weights (`5/4`): the two input
+forms of the SAME dense lattice differ (cf. `C02.outside_forms_differ`). Real layers at these points:
+compared on every run by `harness/props/c14.py` (`kfl-oor` points). -/
+theorem C14_T1_needs_in_range :
+    Kfl.eval 3 false [[[1, 2, 0], [0, 1, 3]]] [2] (3/2) [-1/2, 1] = 5/2 ∧
+    kflAsLattice .tensor 3 false 2 [[[1, 2, 0], [0, 1, 3]]] [2] (3/2) [-1/2, 1] = .ok (7/4) ∧
+    kflAsLattice .list 3 false 2 [[[1, 2, 0], [0, 1, 3]]] [2] (3/2) [-1/2, 1] = .ok (7/4) ∧
+    Kfl.eval 2 false [[[1, 2], [0, 1]]] [2] (3/2) [-1/2, 1/2] = 2 ∧
+    kflAsLattice .tensor 2 false 2 [[[1, 2], [0, 1]]] [2] (3/2) [-1/2, 1/2] = .ok 2 ∧
+    kflAsLattice .list 2 false 2 [[[1, 2], [0, 1]]] [2] (3/2) [-1/2, 1/2] = .ok (5/4) := by
+  decide +kernel
+
+/-- `C14_T1_lattice_layer_returns_kfl` is FALSE with `hr` dropped (for either input form). -/
+theorem C14_T1_lattice_layer_returns_kfl_needs_in_range :
+    ¬ (∀ (form : LatticeEval.InputForm) (L dims : Nat) (clipI : Bool) (K : List (List (List ℚ)))
+        (scale : List ℚ) (bias : ℚ) (xs : List ℚ), 2 ≤ L → 1 ≤ dims → xs.length = dims →
+        (∀ kt ∈ K, kt.length = dims) →
+        kflAsLattice form L clipI dims K scale bias xs = .ok (Kfl.eval L clipI K scale bias xs)) := by
+  intro h
+  have := h .tensor 3 2 false [[[1, 2, 0], [0, 1, 3]]] [2] (3/2) [-1/2, 1] (by norm_num) (by norm_num) rfl
+    (by intro kt hkt; simp at hkt; subst hkt; rfl)
+  rw [C14_T1_needs_in_range.2.1, C14_T1_needs_in_range.1] at this
+  revert this
+  decide +kernel
+
 /-! ## T2 — `pwl_calibration_fn` = `PWLCalibration` holding the derived keypoints and weights
 
 `ValidPwl cfg n outRow.length` is what `_verify_pwl_calibration` accepts (`verify_ok_valid`);
@@ -187,15 +223,87 @@ theorem C14_T2_interpolation_eq_learned_layer (hv : ValidPwl cfg n outRow.length
   unfold PwlEval.calibrate
   rw [hl, hk, hb, layerCfg_lengths, layerCfg_interpKeypoints, keypointsOf_eq]
 
-/-- **C14/T2 (the paired layer exists).** The derived keypoints are strictly increasing and the derived
-kernel has `len(keypoints) − is_cyclic` rows for EVERY positive softmax output: `PWLCalibration`'s
-`verify_hyperparameters` / `build` accept the paired layer. -/
+/-- **C14/T2 (the paired layer is well-formed).** The derived keypoints are strictly increasing and the
+derived kernel has `len(keypoints) − is_cyclic` rows for EVERY positive softmax output: everything
+`PWLCalibration`'s `verify_hyperparameters` / `build` check EXCEPT the kernel's row count `k > 1`
+(`PwlEval.WF` does not contain it). Whether the paired layer can actually be built:
+`C14_T2_paired_layer_buildable_iff` — always, except for `is_cyclic=True` with exactly two keypoints
+(`C14_T2_cyclic_two_keypoints_no_paired_layer`). -/
 theorem C14_T2_paired_layer_wellformed (hsm : SoftmaxLike sm) (hv : ValidPwl cfg n outRow.length)
     (hin : inRow.length + 1 = n) :
     PwlEval.WF (layerCfg cfg (keypointDeltas cfg sm inRow)) (layerKernel cfg (kernelOutputs cfg sm sg outRow)) [] :=
   paired_wf cfg sm sg inRow outRow n hsm hv hin
 
+/-- **C14/T2 (the paired layer EXISTS iff not (cyclic with two keypoints)).** `PWLCalibration.build`
+additionally requires `num_weights = len(input_keypoints) − is_cyclic ≥ 2` ("weights must have shape
+[k, units] where k > 1"). The paired layer meets it exactly when `is_cyclic` is off or the function has at
+least three keypoints. Property C14 states agreement with "PWLCalibration … layers holding the
+corresponding keypoints and weights": for `is_cyclic=True` and two keypoints NO such layer exists
+(constructor succeeds, `build` raises `ValueError`), so that configuration of `pwl_calibration_fn`
+(accepted by the function, constant output) is OUTSIDE the property; the harness reports it as the class
+`outside:cyclic_two_keypoints_no_paired_layer` after checking that `build` does raise. -/
+theorem C14_T2_paired_layer_buildable_iff (hsm : SoftmaxLike sm) (hv : ValidPwl cfg n outRow.length)
+    (hin : inRow.length + 1 = n) :
+    PwlEval.Buildable (layerCfg cfg (keypointDeltas cfg sm inRow))
+        (layerKernel cfg (kernelOutputs cfg sm sg outRow)) []
+      ↔ (cfg.cyclic = false ∨ 3 ≤ n) := by
+  rw [PwlEval.buildable_iff (paired_wf cfg sm sg inRow outRow n hsm hv hin)]
+  have : (layerCfg cfg (keypointDeltas cfg sm inRow)).inputKeypoints.length = n := by
+    simp [layerCfg, derivedKeypoints, PwlEval.length_cumsumExcl, deltas_length cfg sm inRow hsm, hin]
+  rw [this]
+  rfl
+
+/-- **C14/T2 (the paired layer exists)**, the direction used for pairing. -/
+theorem C14_T2_paired_layer_buildable (hsm : SoftmaxLike sm) (hv : ValidPwl cfg n outRow.length)
+    (hin : inRow.length + 1 = n) (hk : cfg.cyclic = false ∨ 3 ≤ n) :
+    PwlEval.Buildable (layerCfg cfg (keypointDeltas cfg sm inRow))
+      (layerKernel cfg (kernelOutputs cfg sm sg outRow)) [] :=
+  (C14_T2_paired_layer_buildable_iff cfg sm sg inRow outRow n hsm hv hin).mpr hk
+
 end pwl
+
+/-- `pwl_calibration_fn(is_cyclic=True)` with two keypoints (`keypoint_input_parameters=None`), range
+`[0, 1] → [0, 1]`, one unit -/
+def cyc2 : PwlFnCfg := ⟨0, 1, 0, 1, 1, false, false, false, true, none, none⟩
+/-- uniform "softmax" (any positive weights summing to one do) -/
+def uniformSm : List ℚ → List ℚ := fun l => l.map (fun _ => 1 / (l.length : ℚ))
+
+/-- **Counter-witness: cyclic with two keypoints has NO paired layer.** The function accepts the
+configuration (`ValidPwl cyc2 2 1`, one output parameter) and returns the constant `kernel_outputs[0]`
+for every input, but the paired `PWLCalibration` kernel has ONE row: `build` raises
+(`¬ Buildable`; real code: `ValueError: PWLCalibrator weights must have shape: [k, units] where k > 1.
+It is: [1, 1]`), although the well-formedness `WF` of `C14_T2_paired_layer_wellformed` holds. -/
+theorem C14_T2_cyclic_two_keypoints_no_paired_layer :
+    ValidPwl cyc2 2 1 ∧
+    (layerKernel cyc2 (kernelOutputs cyc2 uniformSm (fun _ => 2/3) [7/10])).length = 1 ∧
+    derivedKeypoints cyc2 (keypointDeltas cyc2 uniformSm [0]) = [0, 1] ∧
+    PwlEval.WF (layerCfg cyc2 (keypointDeltas cyc2 uniformSm [0]))
+      (layerKernel cyc2 (kernelOutputs cyc2 uniformSm (fun _ => 2/3) [7/10])) [] ∧
+    ¬ PwlEval.Buildable (layerCfg cyc2 (keypointDeltas cyc2 uniformSm [0]))
+      (layerKernel cyc2 (kernelOutputs cyc2 uniformSm (fun _ => 2/3) [7/10])) [] ∧
+    (∀ x ∈ [(-1 : ℚ), 0, 3/10, 1, 2], pwlFn1 cyc2 uniformSm (fun _ => 2/3) [0] [7/10] x = 2/3) := by
+  have hv : ValidPwl cyc2 2 1 :=
+    ⟨by norm_num [cyc2], by norm_num [cyc2], by simp [cyc2], by simp [cyc2], by simp [cyc2], by norm_num,
+      by simp [outSize, cyc2, b2i]⟩
+  have hsm : SoftmaxLike uniformSm := by
+    refine ⟨fun l => by simp [uniformSm], fun l w hw => ?_, fun l hne => ?_⟩
+    · simp only [uniformSm, List.mem_map] at hw
+      obtain ⟨_, hm, rfl⟩ := hw
+      have : 0 < l.length := List.length_pos_of_mem hm
+      positivity
+    · have hpos : 0 < l.length := List.length_pos_iff.mpr hne
+      have : ∀ (l' : List ℚ) (c : ℚ), rsum (l'.map (fun _ => c)) = (l'.length : ℚ) * c := by
+        intro l' c
+        induction l' with
+        | nil => simp
+        | cons a t ih => simp only [List.map_cons, rsum, ih, List.length_cons]; push_cast; ring
+      rw [uniformSm, this]
+      have : (l.length : ℚ) ≠ 0 := by exact_mod_cast hpos.ne'
+      field_simp
+  have hwf := paired_wf cyc2 uniformSm (fun _ => 2/3) [0] [7/10] 2 hsm hv rfl
+  refine ⟨hv, by decide +kernel, by decide +kernel, hwf, ?_, by decide +kernel⟩
+  rw [C14_T2_paired_layer_buildable_iff cyc2 uniformSm (fun _ => 2/3) [0] [7/10] 2 hsm hv rfl]
+  simp [cyc2]
 
 /-! ## T3 — `cdf_fn` = `CDF.call` ('mean' and 'none')
 
